@@ -25,7 +25,8 @@ StepRec(t, b, o) == [th |-> t, begin |-> b, kind |-> o.kind, k |-> o.k, v |-> o.
 \* the walk's own Invoke/Return history with the MODEL's results: used to check that the behaviours of the
 \* intended design (Deviations = {}) are linearisable under CacheLin.tla (the two specs agree)
 HistEv(t, b, o, S2) ==
-  (IF b = 1 THEN <<[t |-> "inv", c |-> t, kind |-> IF o.kind = "csets" THEN "cset" ELSE o.kind, k |-> o.k, v |-> o.v, n |-> NChunks]>>
+  (IF b = 1 THEN <<[t |-> "inv", c |-> t, kind |-> IF o.kind = "csets" THEN "cset" ELSE IF o.kind = "pputi" THEN "pput" ELSE o.kind,
+                    k |-> o.k, v |-> o.v, n |-> IF o.v = PB THEN 4 ELSE NChunks]>>
    ELSE <<>>) \o
   (IF S2.pc[t] = "done" THEN <<[t |-> "ret", c |-> t, st |-> S2.res[t].st, chunks |-> S2.res[t].chunks]>> ELSE <<>>)
 
